@@ -66,3 +66,6 @@ Definition jv_nrow (r : nrow) : jv :=
 Definition run_ifaddrs (l : list ifa) : jv :=
   JL [ jv_outcome (fun rows => JL (map jv_nrow (py_net_if_addrs rows))) (c_net_if_addrs (repeat 255 NI_MAXHOST) l);
        (if forallb wf_ifa l then JC "Val" [JL (map jv_nrow (map pad_row (spec_if_rows l)))] else jnone) ].
+
+(* a sequence of entry-point calls made in one process *)
+Definition run_seq (fixed : bool) (calls : list (entry * list pyval)) : jv := JL (map jv_cres (c_entry_seq fixed calls)).
